@@ -25,7 +25,8 @@ Common(e, pre, post) ==
   \o Cl("C09.outcome", e.out # "ok",
         \/ e.out \in OkOutcomes
         \/ (e.op = "index" /\ e.out = "raise:IndexError")
-        \/ ("strout" \in DOMAIN e.o /\ e.out = e.o.strout))
+        \/ ("strout" \in DOMAIN e.o /\ e.out = e.o.strout)
+        \/ ("pyout" \in DOMAIN e.o /\ e.out = e.o.pyout))      \* "the error str itself raises for the same call"
   \o Cl("C09.clean_fail", e.out # "ok", e.out # "ok" => e.upd = << >>)
   \o Cl("C09.consistent", e.upd # << >>, \A i \in DOMAIN e.upd : e.upd[i][2].b = 0)
   \o Cl("C08.frame", e.upd # << >>, \A i \in DOMAIN e.upd : e.upd[i][1] \in Allowed(e, pre))
